@@ -64,7 +64,7 @@ class Indicator(ABC):
         self._internal_generate_name()
 
     def __str__(self):
-        data = vars(self)
+        data = dict(vars(self))
         data.pop("candles")
         data["name"] = data["_output_name"]
         return str(data)
